@@ -651,7 +651,7 @@ macro_rules! interp {
                     // ptr r <vec|slice|slicemut|ref:i> <const|mut> <steps...> <terminal>     (pure)
                     // ptrw ... write:tag | write_volatile:tag | write_unaligned:tag | as_mut:leaf:tag    (writes)
                     "ptr" | "ptrw" => { let r = reg(w[1]); let (from, cm) = (w[2], w[3]); let toks: Vec<&str> = w[4..].to_vec();
-                        let (fname, fi, _) = tok3(from);
+                        let (fname, fi, fj) = tok3(from);
                         let signed = |t: &str| -> isize { t.split(':').nth(1).unwrap().parse().unwrap() };
                         let ri = exec(0, || -> String { unsafe {
                             let mut pc: Option<$P> = None; let mut pm: Option<$PM> = None;
@@ -661,6 +661,12 @@ macro_rules! interp {
                                 ("slicemut", "const") => pc = Some(regs[r].as_mut_slice().as_ptr()), ("slicemut", "mut") => pm = Some(regs[r].as_mut_slice().as_mut_ptr()),
                                 ("ref", "const") => pc = Some(regs[r].index(fi).as_ptr()),
                                 ("refmut", "const") => pc = Some(regs[r].index_mut(fi).as_ptr()), ("refmut", "mut") => pm = Some(regs[r].index_mut(fi).as_mut_ptr()),
+                                // windows [a, b) of the views, directly and rebuilt from (pointer bundle, length)
+                                ("wins", "const") => pc = Some(regs[r].as_slice().index(fi..fj).as_ptr()),
+                                ("winsm", "const") => pc = Some(regs[r].as_mut_slice().index_mut(fi..fj).as_ptr()), ("winsm", "mut") => pm = Some(regs[r].as_mut_slice().index_mut(fi..fj).as_mut_ptr()),
+                                ("rts", "const") => { let sl = regs[r].as_slice(); let wv = sl.index(fi..fj); pc = Some($S::from_raw_parts(wv.as_ptr(), wv.len()).as_ptr()) }
+                                ("rtsm", "const") => { let mut sl = regs[r].as_mut_slice(); let mut wv = sl.index_mut(fi..fj); let (p, l) = (wv.as_mut_ptr(), wv.len()); pc = Some($SM::from_raw_parts_mut(p, l).as_ptr()) }
+                                ("rtsm", "mut") => { let mut sl = regs[r].as_mut_slice(); let mut wv = sl.index_mut(fi..fj); let (p, l) = (wv.as_mut_ptr(), wv.len()); pm = Some($SM::from_raw_parts_mut(p, l).as_mut_ptr()) }
                                 _ => panic!("bad pointer source") }
                             for t in &toks {
                                 let (name, a, _) = tok3(t);
@@ -693,7 +699,7 @@ macro_rules! interp {
                             let offs: Vec<i64> = o.iter().zip(&b).map(|(a, s)| if s.2 == 0 { -1 } else { (*a as i64 - s.0 as i64) / s.2 as i64 }).collect();
                             format!("at{:?}", offs).replace(' ', "") } });
                         let rs = exec(1, || -> String { unsafe {
-                            let base: usize = if fname == "ref" || fname == "refmut" { fi } else { 0 };
+                            let base: usize = if fname == "ref" || fname == "refmut" || fname.starts_with("win") || fname.starts_with("rt") { fi } else { 0 };
                             let mut p: *mut T = mirs[r].as_mut_ptr().add(base); let mut null = false;
                             for t in &toks {
                                 let (name, a, _) = tok3(t);
@@ -716,12 +722,23 @@ macro_rules! interp {
                         (ri, rs) }
                     // roundtrip r <vec|slice|slicemut>: rebuild the container from its pointer bundle and length (and capacity)
                     "roundtrip" => { let r = reg(w[1]);
+                        // precondition of the capacity-keeping round trip, decided before either side runs
+                        let mut cb: Vec<usize> = vec![]; <T as Shape>::caps(&regs[r], &mut cb);
+                        let cbs: Vec<usize> = cb.iter().cloned().filter(|c| *c != usize::MAX).collect();
+                        let cap_na = cbs.is_empty() || cbs.iter().any(|c| *c != cbs[0]) || cbs[0] == 0;
                         (exec(0, || -> String { unsafe { match w[2] {
                             "vec" => { regs[r].shrink_to_fit(); let mut v = std::mem::take(&mut regs[r]); let (p, l, c) = (v.as_mut_ptr(), v.len(), v.capacity()); std::mem::forget(v);
                                        let nv = $V::from_raw_parts(p, l, if l == 0 { 0 } else { c }); let old = std::mem::replace(&mut regs[r], nv); std::mem::forget(old); "rebuilt".into() }
+                            "vec_cap" => {   // keeps the capacity: only meaningful when every field array has the same capacity (after with_capacity / reserve_exact)
+                                let mut before: Vec<usize> = vec![]; <T as Shape>::caps(&regs[r], &mut before); let cs: Vec<usize> = before.iter().cloned().filter(|c| *c != usize::MAX).collect();
+                                if cap_na { "n/a".into() } else {
+                                    let mut v = std::mem::take(&mut regs[r]); let (p, l) = (v.as_mut_ptr(), v.len()); std::mem::forget(v);
+                                    let nv = $V::from_raw_parts(p, l, cs[0]); let old = std::mem::replace(&mut regs[r], nv); std::mem::forget(old);
+                                    let mut after: Vec<usize> = vec![]; <T as Shape>::caps(&regs[r], &mut after);
+                                    if after == before { "kept".into() } else { format!("changed:{:?}->{:?}", before, after).replace(' ', "") } } }
                             "slice" => { let sl = regs[r].as_slice(); let nsl = $S::from_raw_parts(sl.as_ptr(), sl.len()); let mut o = vec![]; <T as Shape>::scols(&nsl, &mut o); fmt_cols(&o) }
                             _ => { let mut sl = regs[r].as_mut_slice(); let (p, l) = (sl.as_mut_ptr(), sl.len()); let nsl = $SM::from_raw_parts_mut(p, l); let mut o = vec![]; <T as Shape>::smcols(&nsl, &mut o); fmt_cols(&o) } } } }),
-                         exec(1, || -> String { match w[2] { "vec" => { mirs[r].shrink_to_fit(); "rebuilt".into() } _ => fmt_cols(&mirror_cols(&mirs[r])) } })) }
+                         exec(1, || -> String { match w[2] { "vec" => { mirs[r].shrink_to_fit(); "rebuilt".into() } "vec_cap" => (if cap_na { "n/a" } else { "kept" }).into(), _ => fmt_cols(&mirror_cols(&mirs[r])) } })) }
                     // refs r <op> ...: element references <-> owned values (C15)
                     "refs" => { let r = reg(w[1]); let what = w[2];
                         let ri = exec(0, || -> String { match what {
